@@ -142,6 +142,24 @@ func genC18(seed uint64, run int, tier string) Scenario {
 		op.Callbacks = append(op.Callbacks, cb)
 	}
 	sc.Ops = []OpSpec{op, {Kind: "close"}}
+	if r.IntN(3) == 0 {
+		// a second send on the same connection: whatever the first one did (timed out, ended with
+		// an error, completed), this one has the device to itself -- every mode answers its command
+		// with a token that occurs nowhere else
+		tok := "uniq" + word(r, digits, 6, 9)
+		special := "zz2 " + word(r, digits, 1, 5)
+		for _, m := range sc.Dev.Modes {
+			if m.Cmds == nil {
+				m.Cmds = map[string]*peer.Reply{}
+			}
+			m.Cmds[special] = &peer.Reply{Out: []peer.Tok{{S: "ack " + tok + " ok"}}, Next: m.Name}
+		}
+		second := OpSpec{Kind: "callbacks", Cmd: special, Callbacks: []CallbackSpec{{Name: "second", Contains: tok, Complete: true}}, Must: []string{tok},
+			// generous: the backlog of the first dialogue (long listings over byte-sized reads) is
+			// delivered first
+			TimeoutUS: sc.ReadDelayUS * 40000}
+		sc.Ops = []OpSpec{op, second, {Kind: "close"}}
+	}
 	sc.Class = "generic/callbacks"
 
 	return sc
@@ -284,6 +302,19 @@ func runC18(env *Env, s Scenario) {
 	}
 	if wantClass == "" && rec.Class == "" && rec.Result != wantResult {
 		env.Fail("wrong-result", "", "result %q, want the whole dialogue %q", rec.Result, wantResult)
+	}
+	if len(sc.Ops) == 3 && len(sr.Recs) >= 2 && !sr.Recs[1].Skipped && !sr.Recs[1].Panicked {
+		// the second send: its only trigger is a token the device utters only in answer to it
+		r2, op2 := &sr.Recs[1], &sc.Ops[1]
+		env.Probe("second-send-after:" + wantClass)
+		switch {
+		case r2.Err != nil:
+			env.Fail("second-send-failed", "after-"+wantClass, "the second SendWithCallbacks on the connection (after the first ended with class %q) failed: %v", rec.Class, r2.Err)
+		case len(r2.CbFired) != 1 || !strings.HasPrefix(r2.CbFired[0], "second|"):
+			env.Fail("second-send-wrong-callbacks", "after-"+wantClass, "the second send ran callbacks %q, want exactly its own", r2.CbFired)
+		case !strings.Contains(r2.Result, op2.Must[0]):
+			env.Fail("second-send-wrong-result", "after-"+wantClass, "the second send's result %q lacks the device's answer %q", firstN(r2.Result, 300), op2.Must[0])
+		}
 	}
 	env.Probe("outcome:" + wantClass)
 	if len(fired) > 1 {
